@@ -51,7 +51,7 @@ PROPS = {
                         CMD + "Response.construct", CMD + "StateResponse.__init__", AC + "._update_state", AC + ".refresh#one_state_response", (AC + ".refresh", r"whole_response|noraise|call\.")],
             "level": "proof"},
     "C19": {"targets": [CLOUDM + "BaseCloud.get_token", CLOUDM + "BaseCloud._post_request", CLOUDM + "NetHomePlusCloud._parse_response",
-                        CLOUDM + "NetHomePlusCloud.login", CLOUDM + "NetHomePlusCloud._Security.encrypt_password#derivation", DISCM + "Discover._get_cloud",
+                        CLOUDM + "NetHomePlusCloud.__init__", CLOUDM + "NetHomePlusCloud.login", CLOUDM + "NetHomePlusCloud._Security.encrypt_password#derivation", DISCM + "Discover._get_cloud",
                         CLOUDM + "SmartHomeCloud.__init__", CLOUDM + "SmartHomeCloud._Security.sign#derivation", CLOUDM + "SmartHomeCloud._Security.encrypt_password#derivation",
                         CLOUDM + "SmartHomeCloud._Security.encrypt_iam_password#derivation",
                         "msmart.lan.Security.udpid", DISCM + "Discover._authenticate_device"],
